@@ -627,7 +627,9 @@ def rule_r6(chk, db):
     if len(pf) != 1:
         raise AnchorMissing("KeepAliveBody::poll_frame not found")
     pf = pf[0]
-    # (a) is_end_stream reads only `done`
+    # (a) is_end_stream reads only the state of the machine: one field, and it answers true exactly in the end state(s) of that field
+    #     (`self.done`, or `matches!(self.phase, Phase::Done)`)
+    S, V = "done", {"1"}
     if es:
         e = es[0]
         fields = set()
@@ -641,33 +643,89 @@ def rule_r6(chk, db):
             if "term" in w:
                 calls.append(callee_def(w["term"]))
         other_reads = {f for bi, si, st in e.stmts() for o in st["rv"]["ops"] if flow.op_place(o) for a, f in flow.proj_fields(flow.norm_proj(flow.op_place(o)["proj"])) if a == "KeepAliveBody"}
-        chk.verdict((fields | other_reads) == {"done"} and not [c for c in calls if not flow.is_transparent({"callee": {"def": c}})], "R6", "is_end_stream", e.loc(),
-                    "KeepAliveBody::is_end_stream depends on %s %s: it must report the end only through the `done` flag that poll_frame sets with its last frame "
-                    "(hyper stops polling once it is true, so trailers would be lost)" % (sorted(fields | other_reads), [short(c) for c in calls][:3]))
+        read = fields | other_reads
+        state_ok = len(read) == 1 and not [c for c in calls if not flow.is_transparent({"callee": {"def": c}})]
+        if state_ok:
+            S = list(read)[0]
+            # end states: the variants under which `true` is returned (a bool field answers with itself)
+            ends = set()
+            direct = False
+            for bi, si, st in e.stmts():
+                if st["dst"]["l"] == 0 and not st["dst"]["proj"]:
+                    c = flow.const_of(e, st["rv"]["ops"][0]) if st["rv"]["k"] == "use" else None
+                    if c is not None and c.get("ty") == "bool":
+                        if c.get("v") != "0":
+                            got = [x[2] for x in guards.dominating_facts(e, bi) if x[0] == "enum" and x[3] is not None and S in flow.proj_names(x[3][1])]
+                            if not got:
+                                state_ok = False
+                            for g_ in got:
+                                ends |= set(g_)
+                    else:
+                        direct = True
+            if direct and not ends:
+                V = {"1"}
+            elif ends and not direct:
+                V = ends
+            else:
+                state_ok = False
+        chk.verdict(state_ok, "R6", "is_end_stream", e.loc(),
+                    "KeepAliveBody::is_end_stream depends on %s %s: it must report the end only through the state that poll_frame enters with its last frame "
+                    "(hyper stops polling once it is true, so trailers would be lost)" % (sorted(read), [short(c) for c in calls][:3]))
     else:
         chk.ok("R6", "is_end_stream.default", pf.loc(), nontrivial=False)
-    # (b) done = true only together with the last frame (trailers / error)
+
+    def _enters_end(st):
+        nm = flow.proj_names(flow.norm_proj(st["dst"]["proj"]))
+        if nm[-1:] != [S]:
+            return False
+        rv = st["rv"]
+        if rv["k"] == "use" and isinstance(rv["ops"][0], dict) and rv["ops"][0].get("c") == "int":
+            return rv["ops"][0].get("v") in V
+        if rv["k"] == "agg" and rv.get("variant") in V:
+            return True
+        rva = flow.resolve_agg(pf, rv["ops"][0]) if rv["k"] == "use" and rv.get("ops") else None
+        return rva is not None and rva.get("variant") in V
+    # (b) the end state is entered only together with the last frame (trailers / error)
     sets = []
     for bi, si, st in pf.stmts():
-        pfld = flow.proj_fields(flow.norm_proj(st["dst"]["proj"]))
-        nm = flow.proj_names(flow.norm_proj(st["dst"]["proj"]))
-        if (nm[-1:] == ["done"]) and st["rv"]["k"] == "use" and isinstance(st["rv"]["ops"][0], dict) and st["rv"]["ops"][0].get("v") == "1":
+        if _enters_end(st):
             sets.append(bi)
-    chk.floor("R6.done", len(sets), 2, "`done = true` assignments in poll_frame")
+    chk.floor("R6.done", len(sets), 2, "entries into the end state in poll_frame")
     trailer_calls = [bi for bi, t in pf.calls() if short(callee_def(t)) == "trailers" and "Frame" in callee_def(t)]
     chk.verdict(len(trailer_calls) == 1, "R6", "trailers-frame", pf.loc(trailer_calls[0]) if trailer_calls else pf.loc(), "poll_frame builds %d trailers frames (expected one)" % len(trailer_calls))
     for tb in trailer_calls:
         t = pf.blocks[tb]["term"]
         sl = flow.backward(pf, t["args"][0], at=tb)
         chk.verdict(("Response", "headers") in sl.fields, "R6", "trailers-are-response-headers", pf.loc(tb), "the trailers frame does not carry the completed response's headers")
+    def _already_ended(blk):
+        """the block runs only when the machine was found in the end state (it puts that state back after a `mem::replace`)"""
+        for s2 in pf.live_blocks():
+            t2 = pf.blocks[s2]["term"]
+            if t2["k"] != "switch":
+                continue
+            sl2 = flow.backward(pf, t2["discr"], at=s2)
+            if not (("KeepAliveBody", S) in sl2.fields or any(n[-1:] == (S,) for _, n in sl2.places)):
+                continue
+            src2 = paths.switch_source(pf, t2)
+            if src2 is not None and src2[0] == "discr":
+                vals2 = paths.discr_values(t2, src2[1])
+                tr = [(s2, lab) for lab, tb in pf.succ_edges(s2) if vals2.get(lab) in V]
+            else:
+                tr = [(s2, lab) for lab, tb in pf.succ_edges(s2) if lab != "0"] if V == {"1"} else []
+            if tr and flow.must_pass(pf, [blk], tr):
+                return True
+        return False
     for i, sb in enumerate(sets):
-        # the next frame produced after setting done is the trailers frame or an Err frame; no data frame and no further polling of the source
+        if _already_ended(sb):
+            chk.ok("R6", "done-with-last-frame#%d" % i, pf.loc(sb), {"restores": "the end state it was found in"}, nontrivial=False)
+            continue
+        # the next frame produced after entering the end state is the trailers frame or an Err frame; no data frame and no further polling
         r = flow.reach(pf, [sb])
         later_calls = [short(callee_def(pf.blocks[b2]["term"])) for b2 in r if pf.blocks[b2]["term"]["k"] == "call"]
         ok = ("trailers" in later_calls or any(st["rv"]["k"] == "agg" and st["rv"].get("variant") == "Err" for b2 in r for st in pf.blocks[b2]["stmts"])) and \
             "poll" not in later_calls and "poll_frame" not in later_calls and "poll_tick" not in later_calls and "data" not in later_calls
-        chk.verdict(ok, "R6", "done-with-last-frame#%d" % i, pf.loc(sb), "`done` is set at a point after which poll_frame still produces data or polls (calls after it: %s)" % sorted(set(later_calls))[:6])
-    # (c) Ready(None) only when done
+        chk.verdict(ok, "R6", "done-with-last-frame#%d" % i, pf.loc(sb), "the end state is entered at a point after which poll_frame still produces data or polls (calls after it: %s)" % sorted(set(later_calls))[:6])
+    # (c) Ready(None) only in the end state
     for bi, si, st in pf.stmts():
         rv = st["rv"]
         if rv["k"] == "agg" and rv.get("adt") == "core::task::poll::Poll" and rv.get("variant") == "Ready" and rv["ops"] and flow.is_none_literal(pf, rv["ops"][0]):
@@ -676,11 +734,16 @@ def rule_r6(chk, db):
                 t2 = pf.blocks[s2]["term"]
                 if t2["k"] == "switch":
                     sl = flow.backward(pf, t2["discr"], at=s2)
-                    if ("KeepAliveBody", "done") in sl.fields or any(n[-1:] == ("done",) for _, n in sl.places):
-                        tr = [(s2, lab) for lab, tb in pf.succ_edges(s2) if lab != "0"]
-                        if flow.must_pass(pf, [bi], tr):
+                    if ("KeepAliveBody", S) in sl.fields or any(n[-1:] == (S,) for _, n in sl.places):
+                        src2 = paths.switch_source(pf, t2)
+                        if src2 is not None and src2[0] == "discr":
+                            vals2 = paths.discr_values(t2, src2[1])
+                            tr = [(s2, lab) for lab, tb in pf.succ_edges(s2) if vals2.get(lab) in V]
+                        else:
+                            tr = [(s2, lab) for lab, tb in pf.succ_edges(s2) if lab != "0"] if V == {"1"} else []
+                        if tr and flow.must_pass(pf, [bi], tr):
                             dom = True
-            chk.verdict(dom, "R6", "end-only-when-done", pf.loc(bi), "poll_frame returns Ready(None) on a path where `done` is not set")
+            chk.verdict(dom, "R6", "end-only-when-done", pf.loc(bi), "poll_frame returns Ready(None) on a path where the end state has not been entered")
     # (d) filler is a single space, only while the source is pending
     fill = []
     for bi, t in pf.calls():
